@@ -218,9 +218,22 @@ int TempResultToFloat(TempResult* pResult) {
 
 int as_tempres_append_dynstr(as_dynstr_t* p_dest, TempResult const* pResult) {
     switch (pResult->Typ) {
-    case TempInt:
-        as_sdprcatf(p_dest, "%" PRId64, pResult->Contents.Int);
+    case TempInt: {
+        /* the result is parsed again (function arguments): plain decimal,
+           independent of the listing's number format (-SPLITBYTE) */
+
+        char     Str[30];
+        LargeInt Val = pResult->Contents.Int;
+
+        if (Val < 0) {
+            as_sdprcatf(p_dest, "-");
+            DecString(Str, sizeof(Str), (LargeWord)0 - (LargeWord)Val, 0);
+        } else {
+            DecString(Str, sizeof(Str), (LargeWord)Val, 0);
+        }
+        as_sdprcatf(p_dest, "%s", Str);
         break;
+    }
     case TempFloat:
         as_sdprcatf(p_dest, "%0.16e", pResult->Contents.Float);
         KillBlanks(p_dest->p_str);
